@@ -2,6 +2,7 @@ import MdwModel.Driver.C16
 import MdwModel.Driver.C09
 import MdwModel.Driver.C13
 import MdwModel.Driver.Stack
+import MdwModel.Driver.C15
 import MdwModel.Model.Records
 import Std.Data.HashMap
 open Mdw.Drv
@@ -21,6 +22,7 @@ def dispatch (prop : String) (kv : List (String × String)) : Res :=
   | "C09" => C09.run kv
   | "C13" => C13.run kv
   | "C12" => Stack.run12 kv
+  | "C15" => C15.run kv
   | "C06" => match get kv "kind" with
     | some "stackinfo" => Stack.run06info kv
     | _ => .bad "C06 kind"
